@@ -204,7 +204,7 @@ PROPS = {
                         "Scan, Write and limiter.Take() return (bounded by C09/C10 timeouts; with --rate a worker may sit in Take(), which is not ctx-aware, for up to W*window/N)",
                         "the harness's Scanner ignores ctx (worst case for the return time)"],
         "level_text": "Lean theorems over Model/Engine.lean with Ctrl-C enabled in every state, by induction over Reachable, for every W, request list, producer script and schedule, i.e. every cancellation point: C12_no_panic (no send on a closed channel, no double close; errc closed => all W workers returned; results closed <=> copier returned), C12_progress (derived ctx cancelled and not returned => some return-path process can step), C12_rank_step + C12_bounded_return (ranking function: every return-path step strictly decreases it, no other step increases it after the cancel; along every execution at most rank steps), C12_rank_bound (rank <= 4*capRes + 2*capErr + 7*W + 5*|pending| + 12 = 4912 + 5*|pending| at the source's constants), C12_streams_end (returned => logger and drain returned, errc closed and empty, every sent error logged once), C12_whole_records (output grows only by one whole record per Write; only Put values are printed). Side conditions decided on regenerated descriptors. Tied to the code by cancelling the REAL engine + startScanEngine at the k-th Scan / Put / error / write for every k of short runs and with full buffers, in a child process (panic => recorded with goroutine dump), checking return time, complete lines, at-most-once counts. Packet side: the REAL NewPacketMultiGenerator/NewSender/PacketEngine pipeline cancelled at the k-th consumed request / started write / consumed error for every k of short runs (plain, slow writer, writer blocked until the error stream ended, error consumer starting at the cancel) and with every error channel full (> 300 errors, stalled consumer), in a child process: no panic, merged error channel closed within 2 s of the cancel, frames and errors at most once and byte-exact, and the observed event trace with the cancel event accepted by Pipe.step (search over the internal steps).",
-        "level_note": "Partial: bounded STEPS under fairness, not bounded time (C12_full stated, not claimed). After a cancel the packet sender may stay blocked on its unguarded `errc <- err` when errc is full (done is then never closed; startScanEngine does not wait for it): modelled (gSenderErr = false), observed (d=0 in fullerr cases), not a violation of the property. Trusted: Lean kernel; channel/select semantics of the transition system; sxfacts for descriptors.",
+        "level_note": "Partial: bounded STEPS, not bounded time. C12_full (the formerly open statement: from every reachable state with the derived ctx cancelled a returning continuation exists with at most rank return-path steps) is now a theorem (C12_return_exists: made of return-path steps only), and C12_quiescent_returned says a cancelled run in which no return-path step is enabled HAS returned, so only starvation of an enabled step (weak fairness of the Go scheduler) can keep it from returning; that every fair infinite schedule ends is not stated in Lean (schedules are finite lists). After a cancel the packet sender may stay blocked on its unguarded `errc <- err` when errc is full (done is then never closed; startScanEngine does not wait for it): modelled (gSenderErr = false), observed (d=0 in fullerr cases), not a violation of the property. Trusted: Lean kernel; channel/select semantics of the transition system; sxfacts for descriptors.",
     },
     "C07": {
         "modules": ["SxVerif.Props.C07"],
@@ -472,7 +472,7 @@ _LATER = {
     "C09": " Also: a /21 with six slow servers among refused neighbours (records name those servers), 1000 filtered hosts with -w 1000, runs under the smallest `ulimit -n` the process starts with, race pass (socks).",
     "C10": " Also: a third of the scripted servers compress when asked (Accept-Encoding), runs under the smallest `ulimit -n`.",
     "C11": " Also: e2earp feeds the ARP scan's stdout to `sx tcp syn` as -a <file>, on a pipe, as `< file` and as `-a -`; e2earpkill (the scan ended by SIGKILL / SIGTERM while printing: stdout still loads and holds answers given); race pass (arpcache, proc, gen).",
-    "C12": " Also: blocking_ops_accounted (inventory of EVERY channel operation / Take / Sleep / Wait / Lock / go statement of the tree, regenerated with go/types, equal to the hand-classified table of Spec/Blocking.lean), rate_limited_probe_interruptible (D28), stdin_wait_only_in_read (D29), capture_source_* (lock protocol); e2esigint with slow rates (1/m, 10/h), target lists on a stdin / named pipe that stays open; race pass (cancel, pipeline).",
+    "C12": " Also: C12_return_exists / C12_full / C12_quiescent_returned (a returning continuation of return-path steps only, no longer than the rank, exists from every cancelled reachable state; a cancelled state without an enabled return-path step has returned); blocking_ops_accounted (inventory of EVERY channel operation / Take / Sleep / Wait / Lock / go statement of the tree, regenerated with go/types, equal to the hand-classified table of Spec/Blocking.lean), rate_limited_probe_interruptible (D28), stdin_wait_only_in_read (D29), capture_source_* (lock protocol); e2esigint with slow rates (1/m, 10/h), target lists on a stdin / named pipe that stays open; race pass (cancel, pipeline).",
     "C13": " Also: e2eapp (bad lines in pairs files, errflood) and e2eerr at the process boundary; iface; trailing-data lines in gen; error_records_written_through.",
     "C14": " Also: juniqstall (a writer that stalls while hosts are sighted again), race pass (json, proc).",
     "C16": " Also: appdelay (stdout = /dev/full, text mode: the run still lasts its exit delay), e2eapp.",
